@@ -138,7 +138,10 @@ def run(tier, seed):
             hit = [r.known_by_hyp[h] for h in sorted(fl) if h in r.known_by_hyp]
             if order_sensitive and hit and not r.corr_bad:
                 v.known(hit[0]["id"], hit[0]["summary"]); return
-            v.violation(f"{name}", f"case {name}: {msg}", f"# {msg}\n# tree: {sorted(ws.files)}\n{extra}" + cases.replay_text(name))
+            # a recorded finding's symptom while implementation and model disagree somewhere: report
+            # the disagreement first (weak = only if nothing more specific is found)
+            v.violation(f"{name}", f"case {name}: {msg}", f"# {msg}\n# tree: {sorted(ws.files)}\n{extra}" + cases.replay_text(name),
+                        weak=bool(order_sensitive and hit))
         outs = {}
         for threads in ("1", "4", "16"):
             rc_t, out_t, err_t = run_cli(["fixtures", "unused", root], {"RAYON_NUM_THREADS": threads})
